@@ -2,11 +2,11 @@
 C13 — Reference client wire checks accept well-formed responses, flag malformed ones.
 Property theorems only.
 -/
-import ConfModel.Model.WireChecks
-import ConfModel.Spec.WireChecks
+import ConfModel.Lemmas.WireChecks
 import ConfModel.Generated.C13Facts
 namespace ConfModel.Props.C13
 open ConfModel.WireChecks ConfModel.WireChecksSpec
+open ConfModel.ServerTimeout (Bytes parseInt)
 
 /-! ## The byte tables of the code, regenerated on every run, are the model's -/
 
@@ -38,6 +38,164 @@ theorem canonToken_table :
 /-- the empty string is not a valid field name (F15), it is a valid field value -/
 theorem empty_name_value :
     Generated.C13.emptyNameValid = validFieldName [] ∧ Generated.C13.emptyValueValid = validFieldValue [] := by
+  decide
+
+/-! ## grpc-message percent-encoding (every byte string) -/
+
+/-- Decoding the repository's encoding gives the message back. -/
+theorem percent_roundtrip (m : Bytes) : percentDecode (percentEncode m) = some m := by
+  rw [percentEncode_eq]; exact percent_roundtrip_flat m
+
+/-- The encoding consists of printable ASCII only. -/
+theorem percent_printable (m : Bytes) : ∀ b ∈ percentEncode m, 0x20 ≤ b.toNat ∧ b.toNat ≤ 0x7E := by
+  intro b hb
+  rw [percentEncode_eq, List.mem_flatMap] at hb
+  obtain ⟨c, _, hbc⟩ := hb
+  exact printable_encodeByte c b hbc
+
+/-- The validator of `checkGRPCStatus` reports nothing on the repository's own encoding. -/
+theorem percent_validator_accepts (m : Bytes) : validateMessage (percentEncode m) 0 = [] := by
+  rw [percentEncode_eq]; exact validate_flat m
+
+/-! ## the reference server's own gRPC-Web end-stream message is clean -/
+
+/-- For every error code 1..16, every message without a leading or trailing space (F16: the
+block format cannot carry one), any details (base64 and the Status proto enter as the oracle
+`dec` with its round-trip hypothesis `hd`) and any user trailers with valid names and values:
+`examineGRPCEndStream` on `grpcWebStatusEndStream …` reports nothing and `checkGRPCStatus` on
+the trailers it parsed reports nothing. -/
+theorem own_trailers_clean (dec : Bytes → DetailsDec) (code : Nat) (msg : Bytes)
+    (detailsBin : Option Bytes) (hasDetails : Bool) (trailers : Hdrs)
+    (hc : 1 ≤ code ∧ code ≤ 16) (hm : noEdgeSpace msg = true) (ht : trailersOK trailers = true)
+    (hd : ∀ d, detailsBin = some d →
+      cleanValue d = true ∧ dec d = .decoded false (some ((code : Int), msg, hasDetails))) :
+    (examineGRPCEndStream (grpcWebStatusEndStream code msg detailsBin trailers)).1 = [] ∧
+    checkGRPCStatus dec (examineGRPCEndStream (grpcWebStatusEndStream code msg detailsBin trailers)).2.1 = [] := by
+  have hdf := decimal_facts ⟨code, by omega⟩
+  simp only at hdf
+  obtain ⟨hparse, hdval, hdtrim⟩ := hdf
+  -- the status trio as rendered (name, value) pairs
+  have hl1 : lowerASCII (bs "grpc-status") = bs "grpc-status" := by decide
+  have hl2 : lowerASCII (bs "grpc-message") = bs "grpc-message" := by decide
+  have hl3 : lowerASCII (bs "grpc-status-details-bin") = bs "grpc-status-details-bin" := by decide
+  have hblock : grpcWebStatusEndStream code msg detailsBin trailers =
+      renderPairs (((bs "grpc-status", decimal code) :: (bs "grpc-message", percentEncode msg) ::
+        detPairs detailsBin)
+        ++ pairsOf trailers) := by
+    rw [grpcWebStatusEndStream, render_eq]
+    congr 1
+    cases detailsBin <;> simp [grpcStatusTrailers, pairsOf, hl1, hl2, hl3, detPairs]
+  -- every pair is a clean line
+  have c1 : CleanPair (bs "grpc-status", decimal code) :=
+    ⟨reserved_clean.1.1, reserved_clean.1.2, by simpa [List.all_eq_true] using hdval⟩
+  have c2 : CleanPair (bs "grpc-message", percentEncode msg) :=
+    ⟨reserved_clean.2.1.1, reserved_clean.2.1.2, printable_value msg⟩
+  have c3 : ∀ d, detailsBin = some d → CleanPair (bs "grpc-status-details-bin", d) := by
+    intro d hdd
+    have := (hd d hdd).1
+    simp only [cleanValue, Bool.and_eq_true, validFieldValue, List.all_eq_true] at this
+    exact ⟨reserved_clean.2.2.1, reserved_clean.2.2.2, this.1⟩
+  have hu := clean_user trailers ht
+  have hclean : ∀ p ∈ ((bs "grpc-status", decimal code) :: (bs "grpc-message", percentEncode msg) ::
+      detPairs detailsBin)
+      ++ pairsOf trailers, CleanPair p := by
+    intro p hp
+    simp only [List.cons_append, List.mem_cons, List.mem_append] at hp
+    rcases hp with rfl | rfl | hp | hp
+    · exact c1
+    · exact c2
+    · cases hdb : detailsBin with
+      | none => simp [hdb, detPairs] at hp
+      | some d => simp [hdb, detPairs] at hp; subst hp; exact c3 d hdb
+    · exact (hu p hp).1
+  rw [hblock, examine_renderPairs _ hclean]
+  refine ⟨rfl, ?_⟩
+  -- user trailers never collide with the status trio
+  have huser : ∀ K : Bytes, reservedNames.contains (lowerASCII K) = true →
+      (pairsOf trailers).filter (fun p => canonKey p.1 = K) = [] := by
+    intro K hK
+    rw [List.filter_eq_nil_iff]
+    intro p hp hck
+    have hck' : canonKey p.1 = K := by simpa using hck
+    have : lowerASCII p.1 = lowerASCII K := by rw [← hck', lower_canonKey]
+    rw [(hu p hp).2.2] at this
+    exact (hu p hp).2.1 (this ▸ hK)
+  have k11 : canonKey (bs "grpc-status") = kStatus := by decide
+  have k12 : ¬ canonKey (bs "grpc-message") = kStatus := by decide
+  have k13 : ¬ canonKey (bs "grpc-status-details-bin") = kStatus := by decide
+  have k21 : ¬ canonKey (bs "grpc-status") = kMessage := by decide
+  have k22 : canonKey (bs "grpc-message") = kMessage := by decide
+  have k23 : ¬ canonKey (bs "grpc-status-details-bin") = kMessage := by decide
+  have k31 : ¬ canonKey (bs "grpc-status") = kDetails := by decide
+  have k32 : ¬ canonKey (bs "grpc-message") = kDetails := by decide
+  have k33 : canonKey (bs "grpc-status-details-bin") = kDetails := by decide
+  have r1 : reservedNames.contains (lowerASCII kStatus) = true := by decide
+  have r2 : reservedNames.contains (lowerASCII kMessage) = true := by decide
+  have r3 : reservedNames.contains (lowerASCII kDetails) = true := by decide
+  have hmsgtrim : trimWS (percentEncode msg) = percentEncode msg := by
+    simp only [noEdgeSpace, Bool.and_eq_true, bne_iff_ne, ne_eq] at hm
+    exact trimWS_id _ (encode_head msg hm.1) (encode_last msg hm.2)
+  have hS : hget (foldTr [] (((bs "grpc-status", decimal code) :: (bs "grpc-message", percentEncode msg) ::
+        detPairs detailsBin)
+        ++ pairsOf trailers)) kStatus = [decimal code] := by
+    rw [hget_foldTr, List.filter_append, huser kStatus r1]
+    cases detailsBin <;> simp [hget, List.filter_cons, k11, k12, k13, hdtrim, detPairs]
+  have hM : hget (foldTr [] (((bs "grpc-status", decimal code) :: (bs "grpc-message", percentEncode msg) ::
+        detPairs detailsBin)
+        ++ pairsOf trailers)) kMessage = [percentEncode msg] := by
+    rw [hget_foldTr, List.filter_append, huser kMessage r2]
+    cases detailsBin <;> simp [hget, List.filter_cons, k21, k22, k23, hmsgtrim, detPairs]
+  have hD : hget (foldTr [] (((bs "grpc-status", decimal code) :: (bs "grpc-message", percentEncode msg) ::
+        detPairs detailsBin)
+        ++ pairsOf trailers)) kDetails = detVals detailsBin := by
+    rw [hget_foldTr, List.filter_append, huser kDetails r3]
+    cases hdb : detailsBin with
+    | none => simp [hget, List.filter_cons, k31, k32, detPairs, detVals]
+    | some d =>
+      have := (hd d hdb).1
+      simp only [cleanValue, Bool.and_eq_true, beq_iff_eq] at this
+      simp [hget, List.filter_cons, k31, k32, k33, this.2, detPairs, detVals]
+  have hv := percent_validator_accepts msg
+  have hr := percent_roundtrip msg
+  have hcode0 : ¬ ((code : Int) < 0 ∨ (code : Int) > 16) := by omega
+  have hw : wrap32 (code : Int) = (code : Int) := by simp only [wrap32]; omega
+  simp only [checkGRPCStatus, hS, hM, hD]
+  cases hdb : detailsBin with
+  | none =>
+    have hne : ¬ ((code : Int) = 0) := by omega
+    have hne' : ¬ (code = 0) := by omega
+    simp [hparse, hv, hr, hcode0, hne, hne', detVals]
+  | some d =>
+    have hne : ¬ ((code : Int) = 0) := by omega
+    have hne' : ¬ (code = 0) := by omega
+    simp [hparse, hv, hr, hcode0, hne, hne', (hd d hdb).2, hw, detVals]
+
+/-- non-vacuity: a concrete error with details and user trailers satisfying every hypothesis -/
+example :
+    let dec : Bytes → DetailsDec := fun _ => .decoded false (some (13, bs "oops: 50%", true))
+    (1 ≤ 13 ∧ 13 ≤ 16) ∧ noEdgeSpace (bs "oops: 50%") = true ∧
+    trailersOK [(bs "X-Custom", [bs "a b", bs ""])] = true ∧ cleanValue (bs "CA0SBG9vcHM") = true ∧
+    (examineGRPCEndStream (grpcWebStatusEndStream 13 (bs "oops: 50%") (some (bs "CA0SBG9vcHM"))
+      [(bs "X-Custom", [bs "a b", bs ""])])).1 = [] ∧
+    checkGRPCStatus dec (examineGRPCEndStream (grpcWebStatusEndStream 13 (bs "oops: 50%")
+      (some (bs "CA0SBG9vcHM")) [(bs "X-Custom", [bs "a b", bs ""])])).2.1 = [] := by
+  decide
+
+/-- F16 (known finding): the hypothesis `noEdgeSpace` is needed.  For the message `" "` the
+server's own block is examined without complaint, but the trimmed `grpc-message` is then
+reported to disagree with `grpc-status-details-bin`. -/
+theorem edge_space_witness :
+    let dec : Bytes → DetailsDec := fun _ => .decoded false (some (1, [32], true))
+    noEdgeSpace [32] = false ∧
+    (examineGRPCEndStream (grpcWebStatusEndStream 1 [32] (some (bs "QUJD")) [])).1 = [] ∧
+    checkGRPCStatus dec (examineGRPCEndStream (grpcWebStatusEndStream 1 [32] (some (bs "QUJD")) [])).2.1
+      = [.detailsMsgMismatch] := by
+  decide
+
+/-- F15 (fixed): an empty field name is reported; before the repair it was accepted. -/
+theorem empty_name_flagged :
+    (examineGRPCEndStream (bs ": v\r\n")).1 = [.invalidName] ∧
+    validFieldName [] = false ∧ validFieldNameOld [] = true := by
   decide
 
 end ConfModel.Props.C13
